@@ -94,6 +94,7 @@ void h_run(Case &c) {
   // equivalence of everything listed in the statement
   unsigned what = DUMP_GP | DUMP_EXTRAS;
   std::string df = first_diff(dump_topology(t, what), dump_topology(r, what));
+  if (!df.empty() && getenv("VERIF_DUMP_DIR")) { std::string dd = getenv("VERIF_DUMP_DIR"); FILE *f = fopen((dd + "/orig.txt").c_str(), "w"); fputs(dump_topology(t, what).c_str(), f); fclose(f); f = fopen((dd + "/reload.txt").c_str(), "w"); fputs(dump_topology(r, what).c_str(), f); fclose(f); f = fopen((dd + "/x1.xml").c_str(), "w"); fputs(X1.c_str(), f); fclose(f); }
   CHECK(c, df.empty(), "reload_equal", "the reloaded topology differs from the exported one: %s", df.c_str());
   // userdata delivered exactly as exported
   { auto v1 = all_objs(t), v2 = all_objs(r); CHECK(c, v1.size() == v2.size(), "reload_equal", "object count %zu vs %zu", v1.size(), v2.size());
